@@ -189,6 +189,10 @@ define {
                        THEN {"kickfail " \o IName(ix) : ix \in {q \in 1..Len(pi) : PupLive(q) /\ PupMode(pi[q].pup) # "pull"}}
                        ELSE {})
             ELSE {})
+  \* what a sink may still cause from inside its Terminate/Error handler: it no longer uses its own
+  \* talkback, but it may make another sink act (cfg.cross) or an upstream emit / end / greet (cfg.reentrant:
+  \* e.g. it reports the end to a subject that feeds a sibling member)
+  EndHandlerOpts(k) == SinkOpts(k, FALSE) \ {"none", "pull", "term", "err"}
   \* threaded scenarios: a member whose thread program starts with "greet" answers the Handshake from
   \* its own thread (later); every other member greets inside the subscribing call
   ThrGreets(p) == \E t \in 1..Len(CFG.thr) : CFG.thr[t].pid = p /\ CFG.thr[t].greet
@@ -334,11 +338,10 @@ K2a:
       };
     };
 K2b:
-    \* overlapping subscriptions: from inside its Terminate/Error handler (the "repeat on complete" idiom)
-    \* a sink may make ANOTHER sink act; it does not use its own talkback any more
-    if (CFG.cross /\ IsEnd(m) /\ ~CFG.passive
-        /\ {c \in SinkOpts(to.s, FALSE) : \E j \in 1..NSinks : \E a2 \in {"attach", "pull", "term"} : c = "x " \o a2 \o " " \o KName(j)} # {}) {
-      with (c \in {"none"} \cup {c2 \in SinkOpts(to.s, FALSE) : \E j \in 1..NSinks : \E a2 \in {"attach", "pull", "term"} : c2 = "x " \o a2 \o " " \o KName(j)}) {
+    \* from inside its Terminate/Error handler (the "repeat on complete" idiom) a sink may make ANOTHER sink
+    \* act or an upstream emit / end / greet; it does not use its own talkback any more
+    if ((CFG.cross \/ CFG.reentrant) /\ IsEnd(m) /\ ~CFG.passive /\ EndHandlerOpts(to.s) # {}) {
+      with (c \in {"none"} \cup EndHandlerOpts(to.s)) {
         script := LogS(script, <<"sink", KName(to.s), c>>);
         ch := c;
       };
@@ -1581,6 +1584,10 @@ SinkOpts(k, top) ==
                      THEN {"kickfail " \o IName(ix) : ix \in {q \in 1..Len(pi) : PupLive(q) /\ PupMode(pi[q].pup) # "pull"}}
                      ELSE {})
           ELSE {})
+
+
+
+EndHandlerOpts(k) == SinkOpts(k, FALSE) \ {"none", "pull", "term", "err"}
 
 
 ThrGreets(p) == \E t \in 1..Len(CFG.thr) : CFG.thr[t].pid = p /\ CFG.thr[t].greet
@@ -3392,7 +3399,7 @@ DDisp(self) == /\ pc[self] = "DDisp"
                                                                                                                                                                                                                                      sx, 
                                                                                                                                                                                                                                      ch >>
                                                                                                                                                                                                      ELSE /\ Assert(FALSE, 
-                                                                                                                                                                                                                    "Failure of assertion at line 1231, column 5.")
+                                                                                                                                                                                                                    "Failure of assertion at line 1234, column 5.")
                                                                                                                                                                                                           /\ pc' = [pc EXCEPT ![self] = "Ret"]
                                                                                                                                                                                                           /\ UNCHANGED << st, 
                                                                                                                                                                                                                           tasks, 
@@ -3470,9 +3477,8 @@ K2a(self) == /\ pc[self] = "K2a"
                              ta, tc, ft, act, sj, tk >>
 
 K2b(self) == /\ pc[self] = "K2b"
-             /\ IF CFG.cross /\ IsEnd(m[self]) /\ ~CFG.passive
-                   /\ {c \in SinkOpts(to[self].s, FALSE) : \E j \in 1..NSinks : \E a2 \in {"attach", "pull", "term"} : c = "x " \o a2 \o " " \o KName(j)} # {}
-                   THEN /\ \E c \in {"none"} \cup {c2 \in SinkOpts(to[self].s, FALSE) : \E j \in 1..NSinks : \E a2 \in {"attach", "pull", "term"} : c2 = "x " \o a2 \o " " \o KName(j)}:
+             /\ IF (CFG.cross \/ CFG.reentrant) /\ IsEnd(m[self]) /\ ~CFG.passive /\ EndHandlerOpts(to[self].s) # {}
+                   THEN /\ \E c \in {"none"} \cup EndHandlerOpts(to[self].s):
                              /\ script' = LogS(script, <<"sink", KName(to[self].s), c>>)
                              /\ ch' = [ch EXCEPT ![self] = c]
                         /\ pc' = [pc EXCEPT ![self] = "K2c"]
